@@ -35,6 +35,9 @@ FOpts and of a port-0 payload handled (Class A only), an ACK owed for a confirme
 application payload queued iff FPort > 0.  Builder S: `handle_downlink_macs` inside is the REGENERATED method
 (`Gen/SessionMacs.lean`, `TieA.Rx.Full.genOps`) on every command stream of octets (`Stream`) — the former
 simulation hypothesis `MacsOk` is a theorem (`TieA.Rx.Full.genOps_ok`, from `C08.tieA_handle_downlink_macs`).
+Builder X: the statement is for a frame whose MType is a DOWNLINK type (`hup : e.is_uplink = false`); since the fix
+"uplink-typed frames are ignored" the method returns `NoUpdate` at once for `e.is_uplink = true`
+(`tieA_handle_rx_uplink_typed`) and the model's view of such a buffer is `RxView.garbage`, not `RxView.data`.
 Abstract: parsing / MIC / decryption of the frame (inputs), the MAC-command iterator (the decoded commands of the
 well-formed prefix), `next_lower_datarate` and the region's methods (the model's).  A buffer the parser rejects:
 `handle_rx_unparsed`.  Proved in `Props/TieA/HandleRx.lean` + `Props/TieA/HandleRxFull.lean` (non-vacuity: the
@@ -43,14 +46,14 @@ theorem tieA_handle_rx_accept
     (D : Int) (gs : Gen.SessionRx.Session) (rs : RegionState) (g : Gen.SessionRx.Configuration)
     (rx : Gen.SessionRx.RadioBuffer) (dl : List Gen.SessionRx.Downlink) (maxp snr : Int) (ign : Bool)
     (e : Gen.SessionRx.EncryptedDataPayload)
-    (hparse : rx.as_mut_for_read.parse = some e)
+    (hparse : rx.as_mut_for_read.parse = some e) (hup : e.is_uplink = false)
     (hw : TieA.Rx.SessWF gs) (hmax : 0 ≤ maxp ∧ maxp ≤ 255) (hwire : 0 ≤ e.fhdr.fcnt)
     (hdec : ∀ f, Gen.SessionRx.next_fcnt_down gs.fcnt_down e.fhdr.fcnt = some f → e.validate_mic (TieA.Rx.nwkOf gs) f = true →
       ∃ d, rx.as_mut_for_read.decrypt_in_place (some (TieA.Rx.nwkOf gs)) (some (TieA.Rx.appOf gs)) f = some d ∧ TieA.Rx.DecWF TieA.Rx.Full.Stream d) :
     (@Gen.SessionRx.Session.handle_rx RegionState TieA.Rx.Full.genOps D gs rs g rx dl maxp snr ign).bind
         (fun out => (TieA.Rx.respOf out.1).map (fun r => (r, TieA.Rx.sessOf out.2.1, out.2.2.1, TieA.Rx.cfgOf out.2.2.2.1, out.2.2.2.2.2.map TieA.Rx.dlOf)))
       = (sessionHandleRx (TieA.Rx.sessOf gs) (TieA.Rx.cfgOf g) rs (TieA.Rx.dataOf gs e (TieA.Rx.decOf gs rx e)) maxp.toNat snr ign).toOption.map (TieA.Rx.expect dl D) :=
-  TieA.Rx.Full.handle_rx_full D gs rs g rx dl maxp snr ign e hparse hw hmax hwire hdec
+  TieA.Rx.Full.handle_rx_full D gs rs g rx dl maxp snr ign e hparse hup hw hmax hwire hdec
 
 /-- builder N — a buffer the data-frame parser rejects: `NoUpdate`, every output is the input -/
 theorem tieA_handle_rx_unparsed [Gen.SessionRx.MacOps RegionState]
@@ -60,9 +63,24 @@ theorem tieA_handle_rx_unparsed [Gen.SessionRx.MacOps RegionState]
     Gen.SessionRx.Session.handle_rx D gs rs g rx dl maxp snr ign = some (.NoUpdate, gs, rs, g, rx, dl) :=
   TieA.Rx.handle_rx_unparsed D gs rs g rx dl maxp snr ign hparse
 
+/-- builder X — a buffer the parser accepts whose MType is an UPLINK type (`is_uplink()`; the device's own uplink
+echoed back, another device's uplink, any frame MIC'd with Dir = 0 under the session key): `NoUpdate`, every output is
+the input — whatever its length, wire counter and MIC, in a Class A window (no `rx2_complete`) and outside.  For the
+model such a buffer is NOT a data-frame view (`RxView.garbage`, the reference codec's `g`), exactly like a buffer the
+parser rejects: `sessionHandleRx` is only ever applied to downlink-typed frames (`hup` of `tieA_handle_rx_accept`).  This is what makes "acted upon iff an authentic fresh DOWNLINK" true of the code: MIC and keystream direction are
+taken from the received MHDR, so without this exit an uplink-typed frame verifying with Dir = 0 was accepted. -/
+theorem tieA_handle_rx_uplink_typed [Gen.SessionRx.MacOps RegionState]
+    (D : Int) (gs : Gen.SessionRx.Session) (rs : RegionState) (g : Gen.SessionRx.Configuration)
+    (rx : Gen.SessionRx.RadioBuffer) (dl : List Gen.SessionRx.Downlink) (maxp snr : Int) (ign : Bool)
+    (e : Gen.SessionRx.EncryptedDataPayload)
+    (hparse : rx.as_mut_for_read.parse = some e) (hup : e.is_uplink = true) :
+    Gen.SessionRx.Session.handle_rx D gs rs g rx dl maxp snr ign = some (.NoUpdate, gs, rs, g, rx, dl) :=
+  TieA.Rx.handle_rx_uplink_typed D gs rs g rx dl maxp snr ign e hparse hup
+
 /-- builder S: the two former hypotheses are theorems for the regenerated `handle_downlink_macs` -/
 example : @TieA.Rx.NextLowerOk TieA.Rx.Full.genOps ∧ @TieA.Rx.MacsOk TieA.Rx.Full.genOps TieA.Rx.Full.Stream := TieA.Rx.Full.genOps_ok
 
 #print axioms tieA_handle_rx_accept
 #print axioms tieA_handle_rx_unparsed
+#print axioms tieA_handle_rx_uplink_typed
 end C05
